@@ -58,12 +58,20 @@ def peers_for(rng, nets):
     ps.update(rng.sample(["unknown", "", "fe80::1%eth0", "::1", "127.0.0.1", "::ffff:10.0.0.1", "10.0.0.01", " 10.0.0.1"], 3))
     return sorted(ps)
 
-def build_and_decide(tmp, enabled, allow, deny, dflt, peers):
-    """ServerConfig -> get_access_control_config -> (as start_server does) AccessControl -> decisions."""
+def build_and_decide(tmp, enabled, allow, deny, dflt, peers, via_toml=False):
+    """ServerConfig (built directly, or loaded from the TOML file toml_roundtrip() has just written) -> get_access_control_config ->
+    (as start_server does) AccessControl -> decisions."""
     from nauyaca.server.config import ServerConfig
     from nauyaca.server.middleware import AccessControl
-    sc = ServerConfig(document_root=tmp, enable_access_control=enabled, access_control_allow_list=allow,
-                      access_control_deny_list=deny, access_control_default_allow=dflt)
+    if via_toml:
+        from pathlib import Path
+        try:
+            sc = ServerConfig.from_toml(Path(os.path.join(tmp, "c.toml")))
+        except ValueError:
+            return [["startup-error"] for _ in peers]
+    else:
+        sc = ServerConfig(document_root=tmp, enable_access_control=enabled, access_control_allow_list=allow,
+                          access_control_deny_list=deny, access_control_default_allow=dflt)
     cfg = sc.get_access_control_config()
     if not cfg:                       # start_server: `if access_control_config:` -> no component
         return [["admit", True] for _ in peers]
@@ -109,7 +117,10 @@ def run(tier, seed):
         mcases, iobs, mon, meta = [], [], [], []
         fixed = [(True, None, None, False), (True, [], [], False), (True, None, None, True), (False, ["10.0.0.0/8"], None, False),
                  (True, ["10.0.0.0/8"], ["10.1.0.0/16"], True), (True, None, ["::/0"], True), (True, ["0.0.0.0/0"], None, False),
-                 (True, ["10.0.0.1"], ["::1"], False), (True, ["10.0.0.1/24"], None, True), (True, [""], None, True)]
+                 (True, ["10.0.0.1"], ["::1"], False), (True, ["10.0.0.1/24"], None, True), (True, [""], None, True),
+                 # entries that cannot be interpreted must prevent start-up - blank, padded, and next to good ones, in either list
+                 (True, [""], None, False), (True, None, [""], True), (True, ["  "], None, True), (True, [" 10.0.0.0/8"], None, False),
+                 (True, ["10.0.0.1", ""], None, False), (True, ["10.0.0.1"], ["", "10.0.0.2"], True), (True, ["10.0.0.0/8 "], ["\t"], True)]
         configs = list(fixed)
         for _ in range(ncfg):
             def lst():
@@ -125,6 +136,8 @@ def run(tier, seed):
             entries = (allow or []) + (deny or [])
             peers = peers_for(rng, entries)
             decisions = build_and_decide(tmp, enabled, allow, deny, dflt, peers)
+            # "the policy as written in a TOML configuration file": the same decisions through the file written above
+            decisions_toml = build_and_decide(tmp, enabled, allow, deny, dflt, peers, via_toml=True)
             table = []
             for e in set(entries):
                 for suffix in ("", "/32", "/128"):
@@ -133,7 +146,7 @@ def run(tier, seed):
             def own(e):
                 n = iptext.parse_net(e) or iptext.parse_net(e + "/32") or iptext.parse_net(e + "/128")
                 return [n[0], n[1], n[2]] if n else []
-            for p, d in zip(peers, decisions):
+            for p, d in list(zip(peers, decisions)) + list(zip(peers, decisions_toml)):
                 pa = iptext.parse_addr(p)
                 pas = [pa[0], pa[1]] if pa else []
                 sal = [allow] if allow is not None else []
